@@ -218,13 +218,12 @@ def _is_sub(w):
 
 
 def pred_slot_parent_flag_before_subcommand(f):
-    """a word cobra skips (`` or `-`) and a flag word, both typed before a sub-command name"""
+    """a flag word typed before a sub-command name: cobra hands it to the sub-command (where it may be unknown, take
+    another value, or count as a positional), carapace has parsed it with the parent"""
     ws, _ = slot_words(f["case"])
     for k, w in enumerate(ws):
-        if _is_sub(w):
-            before = ws[:k]
-            if any(x in (b"", b"-") for x in before) and any(len(x) > 1 and x.startswith(b"-") for x in before):
-                return True
+        if _is_sub(w) and any(len(x) > 1 and x.startswith(b"-") for x in ws[:k]):
+            return True
     return False
 
 
